@@ -360,6 +360,42 @@ func (s *Spec) ReadState(h *dbh.H) (st *State) {
 	return st
 }
 
+var reContainer = regexp.MustCompile(`^(mem|imm\[\d+\]|L\d+\.t\[\d+\]=\w+|L\d+\.ing\[\d+\]\[\d+\]=\w+):$`)
+
+// Locate lists, per key of the universe, the container classes of the recovered LSM that
+// hold some version of it: "a:L6.ing;b:" (b has no copy anywhere).
+func (s *Spec) Locate(h *dbh.H) (out string) {
+	defer func() {
+		if r := recover(); r != nil {
+			out = "unknown"
+		}
+	}()
+	shape := h.DB.VerifLSM().VerifShape(false)
+	found := map[string][]string{}
+	cur := ""
+	for _, line := range strings.Split(shape, "\n") {
+		if m := reContainer.FindStringSubmatch(line); m != nil {
+			cur = m[1]
+			if i := strings.IndexAny(cur, "[="); i >= 0 {
+				cur = cur[:i]
+			}
+			continue
+		}
+		for _, k := range s.Keys() {
+			if strings.HasPrefix(line, fmt.Sprintf("  0/%q@", k)) {
+				if n := len(found[k]); n == 0 || found[k][n-1] != cur {
+					found[k] = append(found[k], cur)
+				}
+			}
+		}
+	}
+	var parts []string
+	for _, k := range s.Keys() {
+		parts = append(parts, k+":"+strings.Join(found[k], "+"))
+	}
+	return strings.Join(parts, ";")
+}
+
 // ---- crash images ----------------------------------------------------------------
 
 // Cand is one candidate crash image of a node with the model bounds valid at that instant.
